@@ -81,15 +81,24 @@ func scRegisterRecFac(s Scope, name string, fac RecordFactory) {
 	dict.Add(sdic.TypeFacMap, name, (func(_r0 []FType) FType { return GenRecordFType(fac, _r0) }))
 }
 
-func scLookupRecFacCur(s Scope, fieldNames []string) frt.Tuple2[RecordFactory, bool] {
-	sdic := SCSDict(s)
-	return frt.Pipe(dict.Values(sdic.RecFacMap), (func(_r0 []RecordFactory) frt.Tuple2[RecordFactory, bool] {
-		return slice.TryFind((func(_r0 RecordFactory) bool { return recFacMatch(fieldNames, _r0) }), _r0)
-	}))
-}
-
 func emptyRecFac() RecordFactory {
 	return frt.Empty[RecordFactory]()
+}
+
+func scLookupRecFacCur(s Scope, fieldNames []string) frt.Tuple2[RecordFactory, bool] {
+	sdic := SCSDict(s)
+	cands := frt.Pipe(frt.Pipe(dict.Values(sdic.RecFacMap), (func(_r0 []RecordFactory) []RecordFactory {
+		return slice.Filter((func(_r0 RecordFactory) bool { return recFacMatch(fieldNames, _r0) }), _r0)
+	})), (func(_r0 []RecordFactory) []RecordFactory {
+		return slice.SortBy(func(_v1 RecordFactory) string {
+			return _v1.Name
+		}, _r0)
+	}))
+	return frt.IfElse(slice.IsEmpty(cands), (func() frt.Tuple2[RecordFactory, bool] {
+		return frt.NewTuple2(emptyRecFac(), false)
+	}), (func() frt.Tuple2[RecordFactory, bool] {
+		return frt.NewTuple2(slice.Head(cands), true)
+	}))
 }
 
 func scLookupRecFac(s Scope, fieldNames []string) frt.Tuple2[RecordFactory, bool] {
